@@ -483,6 +483,23 @@ def fn_trait_call(eng, callee, a, m, fc):
     return eng.call_value(a[0], list(args) if isinstance(args, (list, tuple)) else [args])
 
 
+@ext(r'^<(?:std::option::)?Option<.*> as PartialEq>::(eq|ne)$')
+def option_eq(eng, callee, a, m, fc):
+    x, y = unref(a[0]), unref(a[1])
+    if x.v != y.v:
+        r = False
+    elif x.v == 'None':
+        r = True
+    else:
+        u, w = unref(x.f[0]), unref(y.f[0])
+        if isinstance(u, (list, En)) or isinstance(w, (list, En)):
+            raise Unsupported('Option == on a compound payload')
+        r = (u == w)
+        if is_sym(r):
+            r = eng.branch(r)
+    return r if m.group(1) == 'eq' else (not r)
+
+
 @ext(r'<.* as Default>::default$')
 def default_any(eng, callee, a, m, fc):
     if 'Vec<' in callee:
